@@ -6,7 +6,7 @@ from sx.api import assume, check, cover, untraced, pick, pickbool
 PROPERTY = 'C02'
 LABELS = ['C02.override_after_rejected_sync', 'C02.raises', 'C02.values', 'C02.refs', 'C02.watchers', 'C02.no_event', 'C02.old_link_alive', 'C02.new_link_absent',
           'C02.dispatch_state']
-SHADOWED_BY_KNOWN = {'C02.new_link_absent': 'only evaluated for a rejected reference, where the known finding C02-ref-installed-before-validate fails first'}
+SHADOWED_BY_KNOWN = {}
 EXPLANATION = ("Harness c02.prog: a target with an allow_refs bounded Integer x, a plain y, a constant c and a readonly r; after a "
                "symbolic prefix of successful operations (plain set, link x to a source Parameter / bind / rx, update) one rejected "
                "attempt of symbolic kind (invalid plain value, reference whose current value is invalid, constant or readonly "
@@ -28,6 +28,7 @@ class T(param.Parameterized):
     c = param.Integer(default=1, constant=True)
     r = param.Integer(default=1, readonly=True)
     e = param.Event()
+    cr = param.Integer(default=1, constant=True, allow_refs=True)
 
 
 def _wtable(o):
@@ -36,7 +37,7 @@ def _wtable(o):
 
 def _snapshot(t, srcs):
     pv = t._param__private
-    return dict(values=[getattr(t, k) for k in ('x', 'y', 'c', 'r')],
+    return dict(values=[getattr(t, k) for k in ('x', 'y', 'c', 'r', 'cr')],
                 refs={k: id(v) for k, v in pv.refs.items()},
                 wt=_wtable(t), swt=[_wtable(s) for s in srcs],
                 cls=[getattr(T, k) for k in ('x', 'y', 'c', 'r')],
@@ -61,7 +62,7 @@ def prog(k: int, p1: int, pv1: int, p2: int, pv2: int, rk: int, kind: int, route
     rk = pick(rk, 0, 2)
     s0.v = s0v
     log = []
-    t.param.watch(lambda *e: log.append([(x.name, x.new) for x in e]), ['x', 'y', 'c', 'r', 'e'], onlychanged=False)
+    t.param.watch(lambda *e: log.append([(x.name, x.new) for x in e]), ['x', 'y', 'c', 'r', 'e', 'cr'], onlychanged=False)
     if ctx == 1:
         # the whole history, the rejected attempt and the probes run inside an open batch: the events queued by the
         # history must stay queued (no watcher runs, the queue length is part of the snapshot)
@@ -85,20 +86,23 @@ def _body(t, s0, s1, log, clsx, k, p1, pv1, p2, pv2, rk, kind, route, bad, after
                 linked = s0
             elif po == 3:
                 t.param.update(y=pvv)
-        kind = pick(kind, 0, 4)
+        kind = pick(kind, 0, 5)
         route = pick(route, 0, 3)
         cover('C02.kind.%d' % kind)
         s1.v = bad if kind == 1 else 5
+        newref = _ref(s1, rk) if kind in (1, 5) else None     # built before the snapshot: an rx registers its own watchers on the source
         snap = _snapshot(t, (s0, s1))
         nlog = len(log)
         if kind == 0:
             val, name = bad, 'x'              # invalid plain value
         elif kind == 1:
-            val, name = _ref(s1, rk), 'x'     # reference whose current value is invalid
+            val, name = newref, 'x'           # reference whose current value is invalid
         elif kind == 2:
             val, name = 5, 'c'                # constant violation
         elif kind == 3:
             val, name = 5, 'r'                # readonly violation
+        elif kind == 5:
+            val, name = newref, 'cr'          # reference (current value valid, different from the held one) handed to a constant
         else:
             val, name = bad, 'y'              # invalid plain value on a parameter without reference support
         try:
@@ -127,10 +131,10 @@ def _body(t, s0, s1, log, clsx, k, p1, pv1, p2, pv2, rk, kind, route, bad, after
         s0.v = after0
         if linked is s0:
             check('C02.old_link_alive', t.x == after0, info)
-        if kind == 1:
-            before = t.x
+        if kind in (1, 5):
+            before = (t.x, t.cr)
             s1.v = 7
-            check('C02.new_link_absent', t.x == before, info)
+            check('C02.new_link_absent', (t.x, t.cr) == before, info)
     finally:
         with untraced():
             T.x = clsx
@@ -253,7 +257,7 @@ def dyn(level: int, tgt: int, valk: int, tm: int, bad: int) -> None:
 dyn.ranges = lambda consts: dict(level=(0, 1), tgt=(0, 2), valk=(0, 2), tm=(0, 2))
 
 
-prog.ranges = lambda consts: dict(p1=(0, 3), p2=(0, 3), pv1=(0, 10), pv2=(0, 10), rk=(0, 2), kind=(0, 4), route=(0, 3),
+prog.ranges = lambda consts: dict(p1=(0, 3), p2=(0, 3), pv1=(0, 10), pv2=(0, 10), rk=(0, 2), kind=(0, 5), route=(0, 3),
                                   s0v=(0, 10), after0=(0, 10), ctx=(0, 1))
 
 
@@ -261,7 +265,7 @@ def shards(tier):
     out = []
     q = tier == 'quick'
     k = 2
-    for kind in range(5):
+    for kind in range(6):
         for route in range(4):
             if route == 2 and kind not in (0, 3, 4):
                 continue
@@ -280,6 +284,6 @@ def shards(tier):
 
 def bounds(tier):
     return dict(prefix_ops=2, prefix_opcodes=['nothing', 'plain set', 'link x to a source', 'update(y)'],
-                reject_kinds=['invalid plain value on x', 'reference with invalid current value', 'constant', 'readonly', 'invalid plain value on y'],
+                reject_kinds=['invalid plain value on x', 'reference with invalid current value', 'constant', 'readonly', 'invalid plain value on y', 'reference handed to a constant allow_refs parameter'],
                 routes=['instance', 'single-key update', 'class', 'update with the rejected key first and an Event key after it'],
                 contexts=['no batch', 'history, attempt and probes inside batch_call_watchers'], reference_kinds=['Parameter', 'bind', 'rx'])
